@@ -65,7 +65,9 @@ def run (s : Sc α) : List String → Option String
   | ["filterdiag", theta, lump, n, ap, aj, ax] =>
     some (showRows s (filterRowsDiag s.nsq (parseRat theta) (lump = "1") (rowsOf (nat n) (parseNats ap) (parseNats aj) (s.parse ax))))
   | ["trunc", k, n, ap, aj, ax] =>
-    some (showRows s (truncateRows s.nsq (nat k) (rowsOf (nat n) (parseNats ap) (parseNats aj) (s.parse ax))))
+    let rows := rowsOf (nat n) (parseNats ap) (parseNats aj) (s.parse ax)
+    some (showRows s (truncateRows s.nsq (nat k) rows) ++ ";" ++
+      (if rows.all (truncCheck s.nsq (nat k)) then "sorted-ok" else "sorted-bad"))
   | ["blockdiag", bs, inv, n, a] =>
     let A := Mat.unflat (nat n) (nat n) (s.parse a)
     if inv = "1" then
